@@ -95,6 +95,17 @@ inline std::string ipv4(ByteSource& b, uint32_t* value = nullptr, bool* intended
   uint64_t last = parts == 4 ? (v & 0xFF) : parts == 3 ? (v & 0xFFFF) : parts == 2 ? (v & 0xFFFFFF) : v;
   s += ipv4_number(b, last);
   if (b.chance(20)) s += ".";
+  if (b.chance(50)) {
+    // plain dotted decimal of every length 7..16 (1-3 digits per part, optional trailing dot):
+    // the shape the decimal fast paths and their length gates look at
+    char buf[40];
+    unsigned bytes[4];
+    for (auto& x : bytes) { static const unsigned lim[] = {10, 100, 256}; x = b.below(lim[b.below(3)]); }
+    v = (bytes[0] << 24) | (bytes[1] << 16) | (bytes[2] << 8) | bytes[3];
+    if (value) *value = v;
+    snprintf(buf, sizeof buf, "%u.%u.%u.%u%s", bytes[0], bytes[1], bytes[2], bytes[3], b.coin() ? "." : "");
+    s = buf;
+  }
   if (b.chance(48)) {  // boundary / malformed variants
     legal = false;
     static const unsigned w[] = {3, 3, 2, 2, 2, 2, 2, 2, 2, 2, 2};
